@@ -1,6 +1,6 @@
 // C11: ProxySettings::for_url, ProxySettingsBuilder, ProxySettings::from_env.
 
-mod verif_proxy {
+pub(crate) mod verif_proxy {
     use super::*;
     use crate::verif::{ascii_lower, make_url, HostSpec, UrlSpec};
 
